@@ -181,7 +181,7 @@ func (q *queueCtx) config() paths.Config {
 						}
 						return true
 					}
-					if x == "lock" {
+					if tv, ok := info.Types[sel.X]; ok && tv.Type != nil && strings.HasSuffix(tv.Type.String(), "sync.Cond") {
 						switch name {
 						case "Broadcast", "Signal":
 							out = append(out, paths.Event{Kind: "SIGNAL", Arg: name, Pos: v.Pos()})
